@@ -605,8 +605,168 @@ def check(ctx):
         ctx.check(bool(br) and guess(gf, br[0] + b"KDEwOnB1YmxpYy1rZXk=}") == "public_lsh", "dispatch/guess-recognises-written", f"{QK}_guessStringType | LSH public", "a public LSH key ({...}) is not classified public_lsh")
         ctx.check(guess(gf, b"(11:private-key(3:dsa") == "private_lsh", "dispatch/guess-recognises-written", f"{QK}_guessStringType | LSH private", "a private LSH s-expression is not classified private_lsh")
 
+    with ctx.section('provenance/binary-input'):
+        _provenance(ctx)
+
+# ---- provenance: the byte string handed to a binary parser is the caller's byte string ---------------------
+
+_MODIFIERS = {"strip", "lstrip", "rstrip", "replace", "translate", "split", "rsplit", "splitlines", "decode", "lower", "upper", "expandtabs",
+              "partition", "rpartition", "removeprefix", "removesuffix", "center", "ljust", "rjust", "zfill", "join"}
+
+
+def _modifications(expr, name):
+    """kinds of value-changing operations applied (directly or nested) to local ``name`` inside expr."""
+    out = []
+    for n in ast.walk(expr):
+        if isinstance(n, ast.Call) and isinstance(n.func, ast.Attribute) and n.func.attr in _MODIFIERS \
+                and any(isinstance(x, ast.Name) and x.id == name for x in ast.walk(n.func.value)):
+            out.append("." + n.func.attr + "()")
+        if isinstance(n, ast.Subscript) and any(isinstance(x, ast.Name) and x.id == name for x in ast.walk(n.value)) \
+                and not any(isinstance(c, ast.Call) and call_attr(c) in ("getNS", "getMP") for c in ast.walk(n.value)):
+            out.append("[" + src(n.slice) + "]")
+    return out
+
+
+def _parser_kind(fn):
+    """'binary' when the parser feeds its data parameter straight into the length-prefixed readers (getNS / getMP / struct.unpack),
+    'text' when it first goes through an armour / line / s-expression decoder; None when it does neither."""
+    if len(fn.args.args) < 2:
+        return None
+    p = fn.args.args[1].arg
+    raw = decoded = False
+    for c in ast.walk(fn):
+        if not isinstance(c, ast.Call) or not c.args:
+            continue
+        a0 = c.args[0]
+        direct = isinstance(a0, ast.Name) and a0.id == p
+        inside = any(isinstance(x, ast.Name) and x.id == p for x in ast.walk(a0))
+        nm = call_attr(c)
+        if nm in ("getNS", "getMP", "unpack") and direct:
+            raw = True
+        if nm in ("decodebytes", "b64decode", "parse", "load_pem_private_key", "load_ssh_public_key", "_fromPrivateOpenSSH_v1", "_fromPrivateOpenSSH_PEM") and inside:
+            decoded = True
+    for n in ast.walk(fn):
+        if isinstance(n, ast.Call) and isinstance(n.func, ast.Attribute) and n.func.attr in ("splitlines", "split", "startswith") \
+                and any(isinstance(x, ast.Name) and x.id == p for x in ast.walk(n.func.value)):
+            decoded = True
+    if raw and not decoded:
+        return "binary"
+    if decoded:
+        return "text"
+    return None
+
+
+def _provenance(ctx):
+    from sa.props._lib_h import edge_path, stmts as cfg_stmts, assigned_pairs
+    kcls = ctx.cls(KY, "Key")
+    km = methods(kcls)
+    kinds = {n[len("_fromString_"):]: _parser_kind(fn) for n, fn in km.items() if n.startswith("_fromString_")}
+    binary = sorted(k for k, v in kinds.items() if v == "binary")
+    text = sorted(k for k, v in kinds.items() if v == "text")
+    ctx.note(f"parser classes: binary={binary} text={text}")
+    ctx.need(len(binary) >= 3 and len(text) >= 3 and None not in kinds.values(), f"classification of _fromString_* parsers ({kinds})")
+    # (1) inside Key.fromString: every rebinding of the data parameter that can reach the dispatch
+    f = ctx.func(KY, "Key.fromString")
+    g = ctx.cfg(f)
+    q = QK + "fromString"
+    dp, tp = f.args.args[1].arg, f.args.args[2].arg
+    mvars = {t.id for st in statements(f) if isinstance(st, ast.Assign) and isinstance(st.value, ast.Call) and dotted(st.value.func) == "getattr"
+             and any("_fromString_" in src(a) for a in st.value.args) for t in st.targets if isinstance(t, ast.Name)}
+    ctx.need(mvars, "fromString: method = getattr(cls, f'_fromString_{type.upper()}')")
+    disp = g.find(lambda x: isinstance(x, ast.Call) and isinstance(x.func, ast.Name) and x.func.id in mvars)
+    ctx.need(disp, "fromString: method(data ...) dispatch")
+
+    def text_only_edges():
+        """test edges on which the format is known to be a text format"""
+        out = []
+        for t in g.ids(lambda n: n.kind == "test"):
+            e = g.node(t).ast
+            if not (isinstance(e, ast.Compare) and len(e.ops) == 1 and src(e.left) in (tp, f"{tp}.lower()", f"{tp}.upper()")):
+                continue
+            r = e.comparators[0]
+            vals = [r.value] if isinstance(r, ast.Constant) else [x.value for x in r.elts] if isinstance(r, (ast.Tuple, ast.List, ast.Set)) and all(isinstance(x, ast.Constant) for x in r.elts) else None
+            if vals is None or not all(isinstance(v, str) for v in vals):
+                continue
+            up = {v.upper() for v in vals}
+            if isinstance(e.ops[0], (ast.In, ast.Eq)) and up <= set(text):
+                out.append((t, "T"))
+            if isinstance(e.ops[0], (ast.NotIn, ast.NotEq)) and set(binary) <= up:
+                out.append((t, "T"))
+            if isinstance(e.ops[0], (ast.In, ast.Eq)) and set(binary) <= up:
+                out.append((t, "F"))
+        return out
+    tedges = text_only_edges()
+    n_sites = 0
+    for n in cfg_stmts(g, lambda st: isinstance(st, (ast.Assign, ast.AugAssign, ast.AnnAssign))):
+        st = g.node(n).ast
+        pairs_ = assigned_pairs(st) if isinstance(st, (ast.Assign, ast.AnnAssign)) else [(st.target, st.value)]
+        for t, v in pairs_:
+            if not (isinstance(t, ast.Name) and t.id == dp):
+                continue
+            n_sites += 1
+            if edge_path(g, [n], disp, strict=True) is None:
+                continue
+            mods = _modifications(v, dp) if v is not None else ["<unpacking>"]
+            conv = isinstance(v, ast.Call) and call_attr(v) == "encode" and src(v.func.value) == dp
+            if isinstance(st, ast.AugAssign):
+                mods = mods or ["augmented assignment"]
+            if conv:
+                guarded = any(isinstance(g.node(t_).ast, ast.Call) and dotted(g.node(t_).ast.func) == "isinstance" and lab == "T" for t_, lab in g.edge_guards(n))
+                ctx.check(guarded, "input/binary-formats-unmodified", ctx.construct(q, st), "the input is re-encoded without being known to be a str")
+                continue
+            if not mods and v is not None and src(v) in (dp, f"bytes({dp})"):
+                ctx.ok("input/binary-formats-unmodified", ctx.construct(q, st))
+                continue
+            only_text = bool(tedges) and edge_path(g, [g.entry], [n], avoid_edges=tedges) is None
+            ctx.check(only_text, "input/binary-formats-unmodified", ctx.construct(q, st),
+                      f"fromString rewrites the key data ({', '.join(mods) or src(v)[:40]}) before dispatching to the parsers, also for the binary formats "
+                      f"{binary}: a blob whose last byte happens to be 0x20 / 0x09-0x0d (or whatever the operation removes) loses it - the key fails to parse or "
+                      "silently parses to a different key")
+    for d in disp:
+        for c in [x for x in ast.walk(g.node(d).ast) if isinstance(x, ast.Call) and isinstance(x.func, ast.Name) and x.func.id in mvars]:
+            n_sites += 1
+            a0 = c.args[0] if c.args else None
+            mods = _modifications(a0, dp) if a0 is not None else ["<no data argument>"]
+            ok = isinstance(a0, ast.Name) and a0.id == dp
+            only_text = bool(tedges) and edge_path(g, [g.entry], [d], avoid_edges=tedges) is None
+            ctx.check(ok or only_text, "input/binary-formats-unmodified", ctx.construct(q, c),
+                      f"the parser is not handed the caller's byte string but {src(a0)[:50] if a0 is not None else '?'} ({', '.join(mods)}): binary formats {binary} lose bytes")
+    ctx.floor("input/binary-formats-unmodified", n_sites, 2, "data rebinding / dispatch sites in fromString")
+    # fromFile passes the file content on unchanged
+    ff = ctx.func(KY, "Key.fromFile")
+    for c in ast.walk(ff):
+        if isinstance(c, ast.Call) and call_attr(c) == "fromString" and c.args:
+            bad = [n.func.attr for n in ast.walk(c.args[0]) if isinstance(n, ast.Call) and isinstance(n.func, ast.Attribute) and n.func.attr in _MODIFIERS]
+            ctx.check(not bad and not any(isinstance(n, ast.Subscript) for n in ast.walk(c.args[0])), "input/binary-formats-unmodified", ctx.construct(QK + "fromFile", c),
+                      f"fromFile modifies the file content ({bad}) before parsing: binary key files lose bytes")
+    # (2) at the head of each binary parser: the parameter reaches getNS / getMP unmodified
+    for k in binary:
+        fn = km["_fromString_" + k]
+        ctx.functions.add(f"{KY}:Key._fromString_{k}")
+        p = fn.args.args[1].arg
+        qn = QK + "_fromString_" + k
+        firsts = _ordered_calls(fn, ("getNS", "getMP"))
+        ctx.need(firsts, f"_fromString_{k}: getNS/getMP")
+        first = firsts[0]
+        ok = isinstance(first.args[0], ast.Name) and first.args[0].id == p
+        ctx.check(ok, "input/binary-formats-unmodified", f"{qn} | first field", f"the first length-prefixed field is read from {src(first.args[0])[:50]}, not from the raw parameter {p}")
+        for st in ast.walk(fn):
+            if isinstance(st, ast.Assign) and (st.lineno, st.col_offset) < (first.lineno, first.col_offset) and st.value is not first \
+                    and not any(c is first for c in ast.walk(st.value)):
+                mods = _modifications(st.value, p)
+                if mods:
+                    ctx.check(False, "input/binary-formats-unmodified", ctx.construct(qn, st),
+                              f"the binary {k} parser trims / rewrites its input ({', '.join(mods)}) before reading the length-prefixed fields")
+
 
 MUTANTS = [
+    Mutant("dispatch-trims-trailing-whitespace", KY, "            if passphrase:\n                raise BadKeyError(\"key not encrypted\")\n            return method(data)\n",
+           "            if passphrase:\n                raise BadKeyError(\"key not encrypted\")\n            return method(data.rstrip())\n", expect_rule="input/binary-formats-unmodified"),
+    Mutant("hoisted-strip-for-all-formats", KY, "        passphrase = _normalizePassphrase(passphrase)\n        if type is None:\n            type = cls._guessStringType(data)\n",
+           "        passphrase = _normalizePassphrase(passphrase)\n        data = data.strip(b\" \\t\\r\\n\")\n        if type is None:\n            type = cls._guessStringType(data)\n",
+           expect_rule="input/binary-formats-unmodified"),
+    Mutant("blob-parser-tolerates-trailing-newline", KY, "        keyType, rest = common.getNS(blob)\n        if keyType == b\"ssh-rsa\":\n            e, n, rest = common.getMP(rest, 2)",
+           "        blob = blob.rstrip(b\"\\n\")\n        keyType, rest = common.getNS(blob)\n        if keyType == b\"ssh-rsa\":\n            e, n, rest = common.getMP(rest, 2)", expect_rule="input/binary-formats-unmodified"),
     Mutant("getNS-cursor-skips-prefix-only", CM, "        ns.append(s[c + 4 : 4 + l + c])\n        c += 4 + l\n", "        ns.append(s[c + 4 : 4 + l + c])\n        c += l\n", expect_rule="primitive/offsets"),
     Mutant("mp-sign-test-wrong-mask", CM, "    if ord(bn[0:1]) & 128:", "    if ord(bn[0:1]) > 128:", expect_rule="primitive/mp-sign-padding"),
     Mutant("ns-length-before-encoding", CM, "    if isinstance(t, str):\n        t = t.encode(\"utf-8\")\n    return struct.pack(\"!L\", len(t)) + t",
@@ -629,6 +789,9 @@ MUTANTS = [
            expect_rule="keys/data-components"),
 ]
 SILENT = [
+    Silent("strip-hoisted-for-text-formats-only", KY, "        if type is None:\n            raise BadKeyError(f\"cannot guess the type of {data!r}\")\n",
+           "        if type is None:\n            raise BadKeyError(f\"cannot guess the type of {data!r}\")\n        if type.lower() in (\"public_openssh\", \"private_openssh\"):\n            data = data.strip()\n"),
+    Silent("text-parser-strips-itself", KY, "        blob = decodebytes(data.split()[1])\n        return cls._fromString_BLOB(blob)", "        data = data.strip()\n        blob = decodebytes(data.split()[1])\n        return cls._fromString_BLOB(blob)"),
     Silent("getNS-slices-rewritten", CM, "        (l,) = struct.unpack(\"!L\", s[c : c + 4])\n        ns.append(s[c + 4 : 4 + l + c])\n        c += 4 + l\n",
            "        (l,) = struct.unpack(\">L\", s[c : 4 + c])\n        ns.append(s[4 + c : c + l + 4])\n        c += l + 4\n"),
     Silent("mp-mask-hex", CM, "    if ord(bn[0:1]) & 128:", "    if bn[0] >= 0x80:"),
